@@ -21,7 +21,11 @@ def _adders_build(p):
     c = pyrtl.Input(1, 'c')
     pairs = [('kogge', adders.kogge_stone(a, b)), ('kogge_c', adders.kogge_stone(a, b, c)),
              ('ripple', adders.ripple_add(a, b)), ('ripple_c', adders.ripple_add(a, b, c)),
-             ('ripple_1', adders.ripple_add(a, b, 1))]
+             ('ripple_1', adders.ripple_add(a, b, 1)),
+             # the carry in given as a Python value / Const (documented: "WireVector or value")
+             ('kogge_1', adders.kogge_stone(a, b, 1)), ('kogge_T', adders.kogge_stone(a, b, True)),
+             ('kogge_0', adders.kogge_stone(a, b, 0)), ('kogge_k1', adders.kogge_stone(a, b, pyrtl.Const(1, bitwidth=1))),
+             ('cla_1', adders.cla_adder(a, b, 1)), ('ripple_k1', adders.ripple_add(a, b, pyrtl.Const(1, bitwidth=1)))]
     for u in (1, 2, 3, 4):
         pairs.append(('cla%d' % u, adders.cla_adder(a, b, c, la_unit_len=u)))
     pairs.append(('cla_nc', adders.cla_adder(a, b)))
@@ -31,7 +35,8 @@ def _adders_build(p):
 def _adders_spec(o, p, ins):
     a, b, c = ins['a'], ins['b'], ins['c']
     d = dict(kogge=a + b, kogge_c=a + b + c, ripple=a + b, ripple_c=a + b + c, ripple_1=a + b + 1,
-             cla_nc=a + b)
+             cla_nc=a + b, kogge_1=a + b + 1, kogge_T=a + b + 1, kogge_0=a + b, kogge_k1=a + b + 1,
+             cla_1=a + b + 1, ripple_k1=a + b + 1)
     for u in (1, 2, 3, 4):
         d['cla%d' % u] = a + b + c
     return d
